@@ -125,6 +125,14 @@ CLAIMS["C05"] = dict(
     technique="normalised-fact extraction from both implementations (byte-slice normaliser, stream operand order), sibling agreement",
     design="DESIGN.md section 4, C05")
 
+CLAIMS["C06"] = dict(
+    text="Writer<->verifier agreement for the tap tool: tag literals, leaf stream and leaf version, branch ordering (symbolic evaluation "
+         "of the compare-and-swap idiom: smaller child first), tweak stream, control-block layout and parity polarity (finite-domain "
+         "tabulation of the two key prefixes), Prove's sibling selection and bottom-up order, and data-flow non-interference of the "
+         "printed address with the spend selection. Tree shape for every n, secp256k1/bech32m and the reported sighash value are not decided.",
+    technique="writer/reader fact agreement, symbolic evaluation over a finite domain, data-dependence closure",
+    design="DESIGN.md section 4, C06")
+
 NOT_YET = "check not built yet in this round (see DESIGN.md section 7 build order)"
 
 NA = {
